@@ -20,6 +20,8 @@ def one(sid):
         env = dict(os.environ, VERIF_REPO=d, VERIF_OUT=out)
         p = subprocess.run([f'{ROOT}/check', pid, '--tier', 'quick'], capture_output=True, text=True, env=env, cwd=ROOT)
         r['exit'] = p.returncode
+        if p.returncode not in (0, 1):
+            r['tail'] = (p.stdout + p.stderr)[-1500:]
         viol = []
         for l in p.stdout.split('\n'):
             m = re.match(r'VIOLATION property=\S+ replay=(\S+)', l)
